@@ -111,7 +111,7 @@ def rules(ctx):
     from .C02 import flow_bounds
     before = len(ctx.obligations)
     flow_bounds(ctx)
-    ctx.obligations[before:] = [x for x in ctx.obligations[before:] if x.id.endswith("simplex-reads-bounds")]
+    ctx.obligations[before:] = [x for x in ctx.obligations[before:] if not x.id.endswith("edge-sites")]
     for x in ctx.obligations[before:]:
         x.id = x.id.replace("C14/R6.", "C14/R2.")
     if fd is not None:
